@@ -481,8 +481,17 @@ func VpHManifest() {
 		return m, off, err
 	}
 
-	// 0: damage analysis of the file; 1: forced rewrite + clone
-	if !failed && sh.count() >= 1 && vpChoose("mode", 2) == 1 {
+	// 0: damage analysis of the file; 1: forced rewrite + clone; 2: re-open of a file with a torn
+	// tail through the real helpOpenOrCreateManifestFile, one more change set, replay
+	mode := 0
+	if !failed {
+		mode = vpChoose("mode", 3)
+	}
+	if mode == 2 {
+		vpMReopenTorn(fs, mf, dir, path, extMagic, thr, opt, nids, ends, snaps, replay)
+		return
+	}
+	if !failed && sh.count() >= 1 && mode == 1 {
 		// an explicit rewrite of whatever state was reached, then clone
 		mf.appendLock.Lock()
 		ev0 := len(fs.ev)
@@ -627,4 +636,90 @@ func vpMSame(s *vpMShadow, m *Manifest) bool {
 		}
 	}
 	return len(m.Tables) == n
+}
+
+// vpMReopenTorn: the MANIFEST ends at an arbitrary byte inside (or at the end of) its last change
+// set (crash during addChanges); the database is re-opened through the real
+// helpOpenOrCreateManifestFile, which must recover the sets before the damage and, when not
+// read-only, cut the torn tail off so that the next change set is appended right after the last
+// complete one; the file is then replayed again.
+func vpMReopenTorn(fs *vpMFS, mf *manifestFile, dir, path string, extMagic uint16, thr int, opt Options, nids int,
+	ends []int, snaps []vpMShadow, replay func() (Manifest, int64, error)) {
+	full := append([]byte(nil), fs.files[path].data...)
+	last := len(snaps) - 1
+	lo := 8
+	if last > 0 {
+		lo = ends[last-1]
+	}
+	c := lo + vpChoose("reopen.cut", len(full)-lo+1)
+	k := -1
+	for i, e := range ends {
+		if e <= c {
+			k = i
+		}
+	}
+	want, wantOff := vpMShadow{nids: nids}, 8
+	if k >= 0 {
+		want, wantOff = snaps[k], ends[k]
+	}
+	vpAssert(mf.close() == nil, "C17:manifest.reopen.close")
+	f := fs.files[path]
+	f.data = append([]byte(nil), full[:c]...)
+	if f.synced > c {
+		f.synced = c
+	}
+	if c > wantOff {
+		vpCover("man.reopen-torn")
+	}
+	readOnly := vpChoose("reopen.readonly", 2) == 1
+	ev0 := len(fs.ev)
+	mf2, m2, err := helpOpenOrCreateManifestFile(dir, readOnly, extMagic, thr, opt)
+	vpAssert(err == nil, "C09,C17,C07:manifest.reopen.recovers-prefix")
+	if err != nil {
+		return
+	}
+	want.check(&m2, "C09,C17,C07:manifest.reopen.recovers-prefix", "C09,C14,C17:manifest.reopen.levels-consistent")
+	want.check(&mf2.manifest, "C09,C17,C07:manifest.reopen.recovers-prefix", "C09,C14,C17:manifest.reopen.levels-consistent")
+	if readOnly {
+		vpCover("man.reopen-readonly")
+		unchanged := len(f.data) == c
+		for _, e := range fs.ev[ev0:] {
+			if len(e) > 6 && e[:6] == "write:" {
+				unchanged = false
+			}
+		}
+		vpAssert(unchanged, "C07,C17:manifest.reopen.readonly-leaves-file-untouched")
+		vpAssert(fs.bad == "", "C17:manifest.file-handle-discipline")
+		return
+	}
+	vpAssert(len(f.data) == wantOff, "C09,C17:manifest.reopen.torn-tail-cut-off")
+	// one more valid change set: create the first absent table, or delete table 0
+	var ch *pb.ManifestChange
+	for id := 0; id < nids && ch == nil; id++ {
+		if !want.present[id] {
+			ch = newCreateChange(uint64(id), 0, vpU64("reopen.keyid"), options.CompressionType(vpU32("reopen.compression")))
+		}
+	}
+	if ch == nil {
+		ch = newDeleteChange(0)
+	}
+	vpAssert(want.apply(ch), "C17:manifest.reopen.model")
+	ren0 := fs.renames
+	err = mf2.addChanges([]*pb.ManifestChange{ch}, opt)
+	vpAssert(err == nil, "C17:manifest.reopen.append-accepted")
+	vpAssert(fs.bad == "", "C17:manifest.file-handle-discipline")
+	if fs.renames == ren0 {
+		// appended right behind the last complete set: no gap, earlier bytes untouched
+		ok := len(f.data) > wantOff
+		for i := 0; i < wantOff && i < len(f.data); i++ {
+			ok = ok && f.data[i] == full[i]
+		}
+		vpAssert(ok, "C17:manifest.reopen.appended-behind-last-complete-set")
+	} else {
+		want.creations, want.deletions = want.count(), 0
+	}
+	m3, off3, err := replay()
+	vpAssert(err == nil && int(off3) == len(fs.files[path].data), "C17,C09:manifest.reopen.replays-after-append")
+	want.check(&m3, "C17,C09:manifest.reopen.replays-after-append", "C14,C17:manifest.levels-consistent")
+	want.check(&mf2.manifest, "C17:manifest.memory-equals-model", "C14,C17:manifest.levels-consistent")
 }
